@@ -513,6 +513,10 @@ func (s *subscriberServer) Pull(
 		)
 	}
 
+	if req.MaxMessages < 1 {
+		return nil, status.Error(codes.InvalidArgument, "max_messages must be positive")
+	}
+
 	p := actions.GetSubscriptionMessagesParams{
 		Name:        req.Subscription,
 		MaxMessages: int(req.MaxMessages),
